@@ -8,7 +8,8 @@
       (tpmsteps.InitTPM), [ILogInit l] (tpmsteps.LogInit), [IEvent p src ty evd]
       (TPMEvent / tpmsteps.Measure: TPM2_PCR_Event), [IExtend p src a] (bare
       TPMExtend: TPM2_PCR_Extend), [ILogAdd p a digest ty evd] (bare
-      TPMEventLogAdd), [IPCR0Data refs1 refs256] (intelsteps.MeasurePCR0DATA);
+      TPMEventLogAdd), [IPCR0Data refs1 refs256] (intelsteps.MeasurePCR0DATA), [IPanic]
+      (commonsteps.Panic);
       a data source [src] is [DS (mkData refs converter)], an error or a panic;
     - [run_flow ref bytes_of H sim0 fl] runs the flow on a new state with a new TPM
       and returns the final state ([s_tpm]: the TPM with [pcrs], [cmdlog],
@@ -27,7 +28,8 @@
       or InitTPM(l,false) / TPMInit(l) alone; or one of these with a separate
       LogInit(l) step before or after) followed by measurements each of which
       extends and logs the same digest ([meas_item]: TPMEvent with an event type
-      other than EV_NO_ACTION, or the PCR0_DATA pair with readable references).
+      other than EV_NO_ACTION, or the PCR0_DATA pair with readable references;
+      Panic steps, which do nothing to the TPM, may be interspersed).
       Measurements may fail (data source error or panic, unreadable reference,
       PCR index other than 0/1): they then leave no trace in PCRs or event log. *)
 From CSS Require Import Lib.Base Model.TPM Proofs.TPM Model.BootSim Proofs.BootSim.
@@ -161,6 +163,7 @@ Theorem C01_digest_is_hash_of_bytes : forall ref bytes_of H fl c,
       denotes ref bytes_of rs raw /\
       (c = Extend 0 a (H a raw) \/
        c = LogAdd 0 a (H a raw) EV_S_CRTM_CONTENTS (Some (pcr0_data_descr a)))
+  | IPanic => False
   end.
 Proof. exact digest_is_hash_of_bytes. Qed.
 Print Assumptions C01_digest_is_hash_of_bytes.
@@ -202,13 +205,15 @@ Definition example_flow : list (list (item (list Z))) :=
 Example C01_wf_flow_satisfiable : wf_flow (list Z) lit_bytes 3 true example_flow.
 Proof.
   exists [IInitTPM 3 true]. eexists. split; [reflexivity|]. split; [constructor|].
-  repeat constructor; try discriminate; cbn;
-    try (eexists; eexists; split; [repeat constructor|reflexivity]).
+  assert (R : forall rs, readable (list Z) lit_bytes (Some rs)).
+  { intros rs. exists (concat rs). exists rs. split; [|reflexivity].
+    induction rs; constructor; [reflexivity|assumption]. }
+  repeat constructor; cbn [meas_item]; try (unfold EV_NO_ACTION; discriminate); apply R.
 Qed.
 
 Example C01_example_values :
   let t := toy_run example_flow in
-  length (cmdlog t) = 15%nat /\ length (evlog t) = 8%nat /\
+  length (cmdlog t) = 16%nat /\ length (evlog t) = 8%nat /\
   get (pcrs t) 0 ALG_SHA1 = EL.replay toy_hash (to_parsed (evlog t)) 0 ALG_SHA1 /\
   get (pcrs t) 1 ALG_SHA256 = EL.replay toy_hash (to_parsed (evlog t)) 1 ALG_SHA256 /\
   get (pcrs t) 0 ALG_SHA256 = EL.tpm_replay toy_hash (to_entries (evlog t)) 0 ALG_SHA256 3 /\
